@@ -579,9 +579,10 @@ class Extractor:
         ret = rsx.text_of(toks, fp.ret_start, fp.ret_end).strip() if fp.ret_start >= 0 else ''
         body = toks[it.body_open + 1:it.body_close]
         sig_body = [t for t in body if t.kind not in ('ws', 'comment')]
+        other_return = False
         for i_, t in enumerate(sig_body):
             if t.kind == 'ident' and t.text == 'return':
-                if not (i_ + 1 < len(sig_body) and sig_body[i_ + 1].text == 'Err'): return None
+                if not (i_ + 1 < len(sig_body) and sig_body[i_ + 1].text == 'Err'): other_return = True
             if t.kind == 'ident' and t.text == it.name and i_ + 1 < len(sig_body) and sig_body[i_ + 1].text in ('(', '::'): return None   # recursion
         # a type parameter of the helper that is NAMED in its body could change meaning at the call site (a type parameter of
         # the same name may be in scope there): such helpers are not beta-reduced
@@ -591,7 +592,7 @@ class Extractor:
         has_ret = any(t.kind == 'ident' and t.text == 'return' for t in sig_body)
         is_result = bool(re.match(r'Result\s*<', ret)) and 'ParseError' in ret
         return dict(name=it.name, container=container, recv=recv, params=params, ret=ret, consts=consts, generics=generic_names,
-                    body=''.join(t.text for t in body), has_q=has_q, has_ret=has_ret, is_result=is_result, path=fpath)
+                    body=''.join(t.text for t in body), has_q=has_q, has_ret=has_ret, is_result=is_result, path=fpath, other_return=other_return)
 
     def inline_helpers(self, ftoks, helpers, count=None, self_name=None):
         """replace every call of a helper in `helpers` (name -> info) inside ftoks by the beta-reduced body (rule R14).
@@ -603,6 +604,11 @@ class Extractor:
         while progress and guard < 200:
             progress = False; guard += 1
             n = len(ftoks)
+            fn_open = fn_close = None
+            try:
+                its_ = split_items(ftoks, 0, n)
+                if len(its_) == 1 and its_[0].kind == 'fn' and its_[0].body_open >= 0: fn_open, fn_close = its_[0].body_open, its_[0].body_close
+            except Exception: pass
             for i, t in enumerate(ftoks):
                 if t.kind != 'ident' or t.text not in helpers or t.text == self_name: continue
                 h = helpers[t.text]
@@ -679,10 +685,19 @@ class Extractor:
                 for n_, (pat, ty) in enumerate(h['params']):
                     plain = not any(re.search(r'(?<![A-Za-z0-9_])%s(?![A-Za-z0-9_])' % re.escape(gname), ty) for gname in (h['generics'] | set(h['consts']))) and "'" not in ty and 'impl ' not in ty and not ty.lstrip().startswith('&mut')
                     lets += ('let %s: %s = __r14_%d_%d; ' % (pat, ty, K, n_)) if plain else ('let %s = __r14_%d_%d; ' % (pat, K, n_))
-                if has_try and h['is_result']:
+                # tail position: the call is the last expression of the enclosing function's body (`... ; H(args) }` closing the fn)
+                in_tail = False
+                if not has_try and fn_close is not None and a == fn_close:
+                    b_ = start - 1
+                    while b_ >= 0 and ftoks[b_].kind in ('ws', 'comment'): b_ -= 1
+                    in_tail = b_ >= 0 and ftoks[b_].text in ('{', ';', '}') and (b_ == fn_open or ftoks[b_].text in (';', '}'))
+                if has_try and h['is_result'] and not h['other_return']:
                     rep = '{ %slet __r14_%d_r = crate::vp::r14_res({%s}); __r14_%d_r? }' % (lets, K, body, K); end = a + 1
                 elif not has_try and not h['has_q'] and not h['has_ret']:
                     rep = '{ %s{%s} }' % (lets, body); end = pc + 1
+                elif in_tail and not any(x.kind == 'punct' and x.text == '|' for x in tokenize(body)):
+                    # returning from the helper IS returning from the caller here, so `?` and `return` keep their meaning
+                    rep = '{ %s%s }' % (lets, body); end = pc + 1
                 else:
                     continue
                 text = rsx.text_of(ftoks, 0, start) + rep + rsx.text_of(ftoks, end, n)
